@@ -1,4 +1,5 @@
 import FinamModel.Connect
+import FinamModel.Props.C06
 import FinamModel.Translated.connect_status
 import FinamModel.Translated.connect_flags
 import FinamModel.Translated.ConnectHelper__push_data
@@ -253,5 +254,338 @@ theorem code_connect_ok_all_connected {φ} (cc : φ → StatusTab → Nat → Ex
     simp [hw, bind, Except.bind, pure, Except.pure] at h
     obtain ⟨rfl, _⟩ := h
     exact loopw fuel st w 0 _ hw
+
+/-- the iteration bound given to the translated `while True` is a proof device only: an outcome other than "out of
+    fuel" does not depend on it — with more fuel the loop gives the same result (value or error) -/
+theorem connect_while_fuel_mono {φ} (cc : φ → StatusTab → Nat → Except Err (StatusTab × φ)) (comps : List Nat) (f : Nat) :
+    ∀ (n : Nat) (st : StatusTab) (w : φ) (k : Int) (r : StatusTab × φ × Int),
+      Tr.connect_components.while1 comps st w f k cc n = .ok r →
+      ∀ m, n ≤ m → Tr.connect_components.while1 comps st w f k cc m = .ok r := by
+  intro n
+  induction n with
+  | zero => intro st w k r h; simp [Tr.connect_components.while1, throw, throwThe, MonadExceptOf.throw] at h
+  | succ n ih =>
+    intro st w k r h m hm
+    cases m with
+    | zero => omega
+    | succ m =>
+      unfold Tr.connect_components.while1 at h ⊢
+      simp only [if_true] at h ⊢
+      cases hp : Tr.connect_components.loop2 comps st w f false false cc comps with
+      | error e => simp [hp, bind, Except.bind] at h
+      | ok q =>
+        obtain ⟨s1, w1, au, an⟩ := q
+        simp only [hp, ok_bind] at h ⊢
+        cases au with
+        | false => simpa using h
+        | true =>
+          simp only [not_true_eq_false, if_false] at h ⊢
+          cases an with
+          | false => simp [throw, throwThe, MonadExceptOf.throw] at h
+          | true =>
+            simp only [not_true_eq_false, if_false] at h ⊢
+            exact ih _ _ _ _ h m (by omega)
+
+/-! ### the translated loop against the model's `connectLoop`
+
+`comp.connect` is instantiated with the model's `stepComp` (one `Component.connect` call on the exchanged set and the
+caches); the table of statuses is kept in step with the model's `status` list. -/
+
+theorem dictGet?_dictSet_eq {ν} (d : List (Nat × ν)) (k : Nat) (v : ν) : Py.dictGet? (Py.dictSet d k v) k = some v := by
+  induction d with
+  | nil => simp [Py.dictSet, Py.dictGet?]
+  | cons p d ih =>
+    obtain ⟨k', v'⟩ := p
+    by_cases h : k' = k <;> simp [Py.dictSet, Py.dictGet?, h, ih]
+
+theorem dictGet?_dictSet_ne {ν} (d : List (Nat × ν)) (k k2 : Nat) (v : ν) (h : k2 ≠ k) :
+    Py.dictGet? (Py.dictSet d k v) k2 = Py.dictGet? d k2 := by
+  induction d with
+  | nil => simp [Py.dictSet, Py.dictGet?, Ne.symm h]
+  | cons p d ih =>
+    obtain ⟨k', v'⟩ := p
+    by_cases h1 : k' = k
+    · subst h1; simp [Py.dictSet, Py.dictGet?, Ne.symm h]
+    · by_cases h2 : k' = k2
+      · subst h2; simp [Py.dictSet, Py.dictGet?, h]
+      · simp [Py.dictSet, Py.dictGet?, h1, h2, ih]
+
+/-- what a `comp.connect` call does, taken from the model -/
+def ccModel (S : Spec) (st : LState) (tab : StatusTab) (c : Nat) : Except Err (StatusTab × LState) :=
+  .ok (Py.dictSet tab c (statusCode (((stepComp S (st, ⟨false, false⟩) c).1.status[c]?).getD .initialized)),
+       (stepComp S (st, ⟨false, false⟩) c).1)
+
+/-- the table of statuses agrees with the model's status list on the listed components, which all exist -/
+def Sync (S : Spec) (order : List Nat) (tab : StatusTab) (st : LState) : Prop :=
+  ∀ c ∈ order, c < st.status.length ∧ c < S.comps.length ∧
+    (Py.dictGet? tab c).getD (-1) = statusCode ((st.status[c]?).getD .initialized)
+
+theorem stepComp_status_len (S : Spec) (sf : LState × Flags) (c : Nat) :
+    (stepComp S sf c).1.status.length = sf.1.status.length := by
+  unfold stepComp
+  split <;> simp
+
+theorem stepComp_status_other (S : Spec) (sf : LState × Flags) (c c2 : Nat) (h : c2 ≠ c) :
+    (stepComp S sf c).1.status[c2]? = sf.1.status[c2]? := by
+  unfold stepComp
+  split <;> simp [List.getElem?_set, Ne.symm h]
+
+theorem statusCode_eq_zero (x : Status) : statusCode x = 0 ↔ x = .connected := by cases x <;> simp [statusCode]
+theorem statusCode_eq_one (x : Status) : statusCode x = 1 ↔ x = .connecting := by cases x <;> simp [statusCode]
+
+/-- the status a `ConnectHelper.connect` call leaves -/
+def newStatus (S : Spec) (st : LState) (c : Nat) (cs : CompSpec) : Status :=
+  callStatus c cs st.done (callDone S c cs st.done st.cache)
+
+theorem newStatus_ne_init (S : Spec) (st : LState) (c : Nat) (cs : CompSpec) : newStatus S st c cs ≠ .initialized := by
+  unfold newStatus callStatus
+  split
+  · simp
+  · split <;> simp
+
+theorem stepComp_call (S : Spec) (st : LState) (f : Flags) (c : Nat) (cs : CompSpec) (x : Status)
+    (hget : st.status[c]? = some x) (h1 : x ≠ .connected) (h2 : x ≠ .initialized) (hcs : S.comps[c]? = some cs) :
+    stepComp S (st, f) c =
+      ({ done := callDone S c cs st.done st.cache, cache := callCache S c cs st.done st.cache,
+         status := st.status.set c (newStatus S st c cs),
+         log := st.log ++ [⟨c, newStatus S st c cs, newItems st.done (callDone S c cs st.done st.cache)⟩] },
+       ⟨f.unconnected || newStatus S st c cs != .connected, f.progress || newStatus S st c cs != .idle⟩) := by
+  unfold stepComp newStatus
+  cases x <;> simp_all
+
+/-- the step of `tr_pass_model` for a component whose `connect` runs a helper call -/
+theorem pass_call_case (S : Spec) (full : List Nat) (fuelN : Nat) (c : Nat) (cs : List Nat) (order : List Nat) (tab : StatusTab)
+    (st : LState) (au an : Bool) (cs_ : CompSpec) (x : Status) (hs : Sync S order tab st) (hin : ∀ y ∈ c :: cs, y ∈ order)
+    (hlen : c < st.status.length) (hget : st.status[c]? = some st.status[c]) (hst : st.status[c] = x)
+    (h1 : x ≠ .connected) (h2 : x ≠ .initialized) (hcs : S.comps[c]? = some cs_) (hcode : statusCode x ≠ 0)
+    (ih : ∀ (order : List Nat) (tab : StatusTab) (st : LState) (au an : Bool), Sync S order tab st → (∀ y ∈ cs, y ∈ order) →
+      ∃ tab', Tr.connect_components.loop2 full tab st fuelN au an (ccModel S) cs =
+          .ok (tab', (cs.foldl (stepComp S) (st, ⟨au, an⟩)).1, (cs.foldl (stepComp S) (st, ⟨au, an⟩)).2.unconnected,
+               (cs.foldl (stepComp S) (st, ⟨au, an⟩)).2.progress) ∧
+        Sync S order tab' (cs.foldl (stepComp S) (st, ⟨au, an⟩)).1) :
+    ∃ tab', (if statusCode x ≠ (0 : Int) then do
+          let (self_status, self_world) ← ccModel S st tab c
+          if ((Py.dictGet? self_status c).getD (-1)) = (0 : Int) then
+            Tr.connect_components.loop2 full self_status self_world fuelN au true (ccModel S) cs
+          else
+            if ((Py.dictGet? self_status c).getD (-1)) = (1 : Int) then
+              Tr.connect_components.loop2 full self_status self_world fuelN true true (ccModel S) cs
+            else
+              Tr.connect_components.loop2 full self_status self_world fuelN true an (ccModel S) cs
+        else Tr.connect_components.loop2 full tab st fuelN au an (ccModel S) cs) =
+        .ok (tab', (cs.foldl (stepComp S) (stepComp S (st, ⟨au, an⟩) c)).1,
+             (cs.foldl (stepComp S) (stepComp S (st, ⟨au, an⟩) c)).2.unconnected,
+             (cs.foldl (stepComp S) (stepComp S (st, ⟨au, an⟩) c)).2.progress) ∧
+      Sync S order tab' (cs.foldl (stepComp S) (stepComp S (st, ⟨au, an⟩) c)).1 := by
+  have hgx : st.status[c]? = some x := by rw [hget, hst]
+  have hstep := stepComp_call S st ⟨au, an⟩ c cs_ x hgx h1 h2 hcs
+  have hstep0 := stepComp_call S st ⟨false, false⟩ c cs_ x hgx h1 h2 hcs
+  have hnew : (((stepComp S (st, ⟨false, false⟩) c).1.status[c]?).getD .initialized) = newStatus S st c cs_ := by
+    rw [hstep0]; simp [List.getElem?_set, hlen]
+  simp only [hcode, ne_eq, not_false_eq_true, if_true, ccModel, ok_bind, hnew, dictGet?_dictSet_eq, Option.getD_some]
+  rw [hstep]
+  have hsync : Sync S order (Py.dictSet tab c (statusCode (newStatus S st c cs_))) (stepComp S (st, ⟨false, false⟩) c).1 := by
+    intro y hy
+    obtain ⟨a1, a2, a3⟩ := hs y hy
+    rw [hstep0]
+    refine ⟨by simpa using a1, a2, ?_⟩
+    by_cases hyc : y = c
+    · subst hyc; simp [dictGet?_dictSet_eq, List.getElem?_set, hlen]
+    · simp only [dictGet?_dictSet_ne _ _ _ _ hyc, List.getElem?_set, Ne.symm hyc, if_false]; simpa using a3
+  rw [hstep0] at hsync ⊢
+  have hrest : ∀ y ∈ cs, y ∈ order := fun y hy => hin y (List.mem_cons_of_mem _ hy)
+  have b1 : (Status.connected != Status.idle) = true := by decide
+  have b2 : (Status.connecting != Status.connected) = true := by decide
+  have b3 : (Status.connecting != Status.idle) = true := by decide
+  have b4 : (Status.idle != Status.connected) = true := by decide
+  cases hns : newStatus S st c cs_ with
+  | initialized => exact absurd hns (newStatus_ne_init S st c cs_)
+  | connected =>
+    rw [hns] at hsync
+    obtain ⟨tab', e1, e2⟩ := ih order _ _ au true hsync hrest
+    refine ⟨tab', ?_, ?_⟩
+    · simpa [statusCode, b1] using e1
+    · simpa [b1] using e2
+  | connecting =>
+    rw [hns] at hsync
+    have h10 : ¬ ((1 : Int) = 0) := by decide
+    obtain ⟨tab', e1, e2⟩ := ih order _ _ true true hsync hrest
+    refine ⟨tab', ?_, ?_⟩
+    · simpa [statusCode, h10, b2, b3] using e1
+    · simpa [b2, b3] using e2
+  | idle =>
+    rw [hns] at hsync
+    have h20 : ¬ ((2 : Int) = 0) := by decide
+    have h21 : ¬ ((2 : Int) = 1) := by decide
+    obtain ⟨tab', e1, e2⟩ := ih order _ _ true an hsync hrest
+    refine ⟨tab', ?_, ?_⟩
+    · simpa [statusCode, h20, h21, b4] using e1
+    · simpa [b4] using e2
+
+/-- one pass of the translated `for comp in self._components` loop is the model's fold of `stepComp` -/
+theorem tr_pass_model (S : Spec) (full : List Nat) (fuelN : Nat) : ∀ (cs : List Nat) (order : List Nat) (tab : StatusTab) (st : LState)
+    (au an : Bool), Sync S order tab st → (∀ c ∈ cs, c ∈ order) →
+    ∃ tab', Tr.connect_components.loop2 full tab st fuelN au an (ccModel S) cs =
+        .ok (tab', (cs.foldl (stepComp S) (st, ⟨au, an⟩)).1, (cs.foldl (stepComp S) (st, ⟨au, an⟩)).2.unconnected,
+             (cs.foldl (stepComp S) (st, ⟨au, an⟩)).2.progress) ∧
+      Sync S order tab' (cs.foldl (stepComp S) (st, ⟨au, an⟩)).1 := by
+  intro cs
+  induction cs with
+  | nil => intro order tab st au an hs _; exact ⟨tab, by simp [Tr.connect_components.loop2, pure, Except.pure], hs⟩
+  | cons c cs ih =>
+    intro order tab st au an hs hin
+    have hc := hs c (hin c (List.mem_cons_self))
+    obtain ⟨hlen, hcomp, hcode⟩ := hc
+    have hget : st.status[c]? = some st.status[c] := List.getElem?_eq_getElem hlen
+    obtain ⟨cs_, hcs⟩ : ∃ x, S.comps[c]? = some x := ⟨S.comps[c], List.getElem?_eq_getElem hcomp⟩
+    simp only [List.foldl_cons]
+    unfold Tr.connect_components.loop2
+    rw [hcode, hget]
+    simp only [Option.getD_some]
+    cases hst : st.status[c] with
+    | connected =>
+      -- skipped by both
+      have hstep : stepComp S (st, ⟨au, an⟩) c = (st, ⟨au, an⟩) := by
+        unfold stepComp; simp [hget, hst]
+      simp only [statusCode, ne_eq, not_true_eq_false, if_false, hstep]
+      exact ih order tab st au an hs (fun x hx => hin x (List.mem_cons_of_mem _ hx))
+    | initialized =>
+      have hstep : stepComp S (st, ⟨au, an⟩) c =
+          ({ st with status := st.status.set c .connecting, log := st.log ++ [⟨c, .connecting, []⟩] }, ⟨true, true⟩) := by
+        unfold stepComp; simp [hget, hst]
+      have hstep0 : (stepComp S (st, ⟨false, false⟩) c).1 =
+          { st with status := st.status.set c .connecting, log := st.log ++ [⟨c, .connecting, []⟩] } := by
+        unfold stepComp; simp [hget, hst]
+      have hnew : ((stepComp S (st, ⟨false, false⟩) c).1.status[c]?).getD .initialized = .connecting := by
+        rw [hstep0]; simp [List.getElem?_set, hlen]
+      have h30 : ¬ ((3 : Int) = 0) := by decide
+      simp only [statusCode, ne_eq, h30, not_false_eq_true, if_true, ccModel, ok_bind, hnew, dictGet?_dictSet_eq, Option.getD_some]
+      have h10 : ¬ ((1 : Int) = 0) := by decide
+      simp only [h10, if_false, if_true, hstep, hstep0]
+      apply ih order
+      · intro x hx
+        obtain ⟨h1, h2, h3⟩ := hs x hx
+        refine ⟨by simpa using h1, h2, ?_⟩
+        by_cases hxc : x = c
+        · subst hxc; simp [dictGet?_dictSet_eq, List.getElem?_set, hlen, statusCode]
+        · simp only [dictGet?_dictSet_ne _ _ _ _ hxc, List.getElem?_set, Ne.symm hxc, if_false]; simpa using h3
+      · exact fun x hx => hin x (List.mem_cons_of_mem _ hx)
+    | connecting =>
+      exact pass_call_case S full fuelN c cs order tab st au an cs_ .connecting hs hin hlen hget hst (by simp) (by simp) hcs
+        (by simp [statusCode]) (fun o t s a b h1 h2 => ih o t s a b h1 h2)
+    | idle =>
+      exact pass_call_case S full fuelN c cs order tab st au an cs_ .idle hs hin hlen hget hst (by simp) (by simp) hcs
+        (by simp [statusCode]) (fun o t s a b h1 h2 => ih o t s a b h1 h2)
+
+/-- the translated `while True` loop is the model's `connectLoop` -/
+theorem tr_while_model (S : Spec) (order : List Nat) (f : Nat) : ∀ (n : Nat) (tab : StatusTab) (st : LState) (k : Int),
+    Sync S order tab st →
+    match connectLoop S order n st with
+    | .ok st' => ∃ tab' k', Tr.connect_components.while1 order tab st f k (ccModel S) n = .ok (tab', st', k') ∧ Sync S order tab' st'
+    | .circular _ _ => Tr.connect_components.while1 order tab st f k (ccModel S) n = .error .circular
+    | .outOfFuel _ => Tr.connect_components.while1 order tab st f k (ccModel S) n = .error .other := by
+  intro n
+  induction n with
+  | zero => intro tab st k _; simp [connectLoop, Tr.connect_components.while1, throw, throwThe, MonadExceptOf.throw]
+  | succ n ih =>
+    intro tab st k hs
+    obtain ⟨tab1, hp, hs1⟩ := tr_pass_model S order f order order tab st false false hs (fun c hc => hc)
+    unfold connectLoop Tr.connect_components.while1
+    simp only [if_true, hp, ok_bind, iter]
+    by_cases hu : (order.foldl (stepComp S) (st, ⟨false, false⟩)).2.unconnected = false
+    · simp only [hu, if_true, Bool.false_eq_true, not_false_eq_true]
+      exact ⟨tab1, k, rfl, hs1⟩
+    · have hu' : (order.foldl (stepComp S) (st, ⟨false, false⟩)).2.unconnected = true := by
+        cases hx : (order.foldl (stepComp S) (st, ⟨false, false⟩)).2.unconnected <;> simp_all
+      simp only [hu', Bool.true_eq_false, if_false, not_true_eq_false]
+      by_cases hg : (order.foldl (stepComp S) (st, ⟨false, false⟩)).2.progress = false
+      · simp [hg, throw, throwThe, MonadExceptOf.throw]
+      · have hg' : (order.foldl (stepComp S) (st, ⟨false, false⟩)).2.progress = true := by
+          cases hx : (order.foldl (stepComp S) (st, ⟨false, false⟩)).2.progress <;> simp_all
+        simp only [hg', Bool.true_eq_false, if_false, not_true_eq_false]
+        exact ih tab1 _ (k + 1) hs1
+
+/-- **`Composition._connect_components` = the model's connect loop** (with `comp.connect` instantiated by the model's
+    `stepComp`): the same outcome — every component connected / circular-coupling error / bound exhausted — and, when it
+    returns, the model's final state with a table of statuses that agrees with it.  The theorems of `Props/C06.lean` about
+    `connect` (termination within `bound`, the stuck set, the least fixed point of what gets exchanged) are thereby
+    statements about the regenerated loop. -/
+theorem tr_connect_components (S : Spec) (order : List Nat) (tab : StatusTab) (st : LState) (fuel : Nat)
+    (hs : Sync S order tab st) :
+    match connectLoop S order fuel st with
+    | .ok st' => ∃ tab', Tr.connect_components order tab st (ccModel S) fuel = .ok (tab', st') ∧ Sync S order tab' st'
+    | .circular _ _ => Tr.connect_components order tab st (ccModel S) fuel = .error .circular
+    | .outOfFuel _ => Tr.connect_components order tab st (ccModel S) fuel = .error .other := by
+  have h := tr_while_model S order fuel fuel tab st 0 hs
+  unfold Tr.connect_components
+  cases hc : connectLoop S order fuel st with
+  | ok st' =>
+    rw [hc] at h
+    obtain ⟨tab', k', e, hs'⟩ := h
+    exact ⟨tab', by simp [e, bind, Except.bind, pure, Except.pure], hs'⟩
+  | circular st' names => rw [hc] at h; simp [h, bind, Except.bind]
+  | outOfFuel st' => rw [hc] at h; simp [h, bind, Except.bind]
+
+/-- the initial table: every listed component INITIALIZED (code 3), in step with the model's initial state -/
+theorem sync_init (S : Spec) (order : List Nat) (h : ∀ c ∈ order, c < S.comps.length) :
+    Sync S order (order.map fun c => (c, (3 : Int))) (Connect.initState S) := by
+  intro c hc
+  refine ⟨by simpa [Connect.initState] using h c hc, h c hc, ?_⟩
+  have hl : c < (Connect.initState S).status.length := by simpa [Connect.initState] using h c hc
+  have : (Connect.initState S).status[c]? = some Status.initialized := by
+    rw [List.getElem?_eq_getElem hl]; simp [Connect.initState]
+  rw [this]
+  simp only [Option.getD_some, statusCode]
+  have : Py.dictGet? (order.map fun c => (c, (3 : Int))) c = some 3 := by
+    clear hl this
+    induction order with
+    | nil => cases hc
+    | cons d ds ihd =>
+      by_cases hd : d = c
+      · simp [Py.dictGet?, hd]
+      · have : c ∈ ds := by cases hc with
+          | head => exact absurd rfl hd
+          | tail _ hh => exact hh
+        simp [Py.dictGet?, hd, ihd (fun x hx => h x (List.mem_cons_of_mem _ hx)) this]
+  rw [this]; rfl
+
+/-- **connect() always terminates, on the code**: run on the initial state with the bound `#items + 2 · #components + 1`, the
+    translated `_connect_components` never runs out of iterations — it returns, or raises the circular-coupling error -/
+theorem code_connect_terminates (S : Spec) (order : List Nat) (h : ∀ c ∈ order, c < S.comps.length) :
+    Tr.connect_components order (order.map fun c => (c, (3 : Int))) (Connect.initState S) (ccModel S) (bound S) ≠ .error .other := by
+  have ht := tr_connect_components S order _ (Connect.initState S) (bound S) (sync_init S order h)
+  have hterm := loop_terminates S order
+  unfold connect at hterm
+  cases hc : connectLoop S order (bound S) (Connect.initState S) with
+  | ok st' => rw [hc] at ht; obtain ⟨tab', e, _⟩ := ht; rw [e]; simp
+  | circular st' names => rw [hc] at ht; rw [ht]; simp
+  | outOfFuel st' => exact absurd hc (hterm st')
+
+/-- **the outcome of the regenerated loop is the model's**: it returns exactly when the model's `connect` succeeds (then with
+    the model's final state, every listed component CONNECTED in the table), and raises the circular-coupling error exactly
+    when the model reports a stall -/
+theorem code_connect_outcome (S : Spec) (order : List Nat) (h : ∀ c ∈ order, c < S.comps.length) :
+    match connect S order with
+    | .ok st' => ∃ tab', Tr.connect_components order (order.map fun c => (c, (3 : Int))) (Connect.initState S) (ccModel S) (bound S)
+        = .ok (tab', st') ∧ ∀ c ∈ order, connected tab' c
+    | .circular _ _ => Tr.connect_components order (order.map fun c => (c, (3 : Int))) (Connect.initState S) (ccModel S) (bound S)
+        = .error .circular
+    | .outOfFuel _ => False := by
+  have ht := tr_connect_components S order _ (Connect.initState S) (bound S) (sync_init S order h)
+  have hterm := loop_terminates S order
+  unfold connect at hterm ⊢
+  cases hc : connectLoop S order (bound S) (Connect.initState S) with
+  | ok st' =>
+    rw [hc] at ht
+    obtain ⟨tab', e, hs⟩ := ht
+    refine ⟨tab', e, ?_⟩
+    have hown : OwnStatus (ccModel S) := by
+      intro w st c st1 w1 hcall c' hne
+      simp only [ccModel, Except.ok.injEq, Prod.mk.injEq] at hcall
+      rw [← hcall.1]
+      exact dictGet?_dictSet_ne _ _ _ _ hne
+    exact code_connect_ok_all_connected (ccModel S) hown order _ (Connect.initState S) (bound S) tab' st' e
+  | circular st' names => rw [hc] at ht; exact ht
+  | outOfFuel st' => exact absurd hc (hterm st')
 
 end Finam.Props.C06
